@@ -16,6 +16,10 @@ GENERIC = {"append", "pop", "clear", "add", "remove", "extend", "insert", "keys"
            "reverse", "lower", "upper", "replace", "write", "read", "close", "discard"}
 
 
+def model_layer(modname):
+    return modname.startswith(("vsc.model", "vsc.visitors", "vsc.profile"))
+
+
 class CallGraph:
     def __init__(self, prog):
         self.prog = prog
@@ -120,7 +124,11 @@ class CallGraph:
                 if isinstance(r, Class):
                     g = prog.lookup(r, "__init__")
                     return [g] if g else []
-            return [g for g in prog.funcs_named(name) if g.cls is not None or g.outer is not None]
+            cands = [g for g in prog.funcs_named(name) if g.cls is not None or g.outer is not None]
+            if model_layer(func.module.name) and not (isinstance(v, ast.Attribute) and v.attr == "rand_if"):
+                # layering: vsc.model / vsc.visitors never import the facade; the only way up is the rand_if callback object
+                cands = [g for g in cands if model_layer(g.module.name)]
+            return cands
         return []
 
     def callees(self, func):
@@ -136,6 +144,121 @@ class CallGraph:
                         out.append(g)
         self._callees[func] = out
         return out
+
+    # ------------------------------------------------ visitor-context-sensitive reachability
+    def _is_visitor(self, c):
+        return c is not None and any(n.startswith("visit_") for k in self.prog.mro(c) for n in k.methods)
+
+    def _visitor_arg_class(self, arg, func, ctx):
+        prog = self.prog
+        if isinstance(arg, ast.Name) and arg.id == "self" and self._is_visitor(func.cls):
+            if ctx is not None and func.cls in prog.mro(ctx):
+                return ctx
+            return func.cls
+        if isinstance(arg, ast.Name) and func.name == "accept" and arg.id in func.params[1:2]:
+            return ctx            # accept(self, v) handing its visitor on
+        if isinstance(arg, ast.Name):
+            return self.local_types(func).get(arg.id)
+        if isinstance(arg, ast.Call):
+            d = dotted(arg.func)
+            r = prog.resolve_dotted(func.module, d) if d else None
+            if isinstance(r, Class):
+                return r
+        if isinstance(arg, ast.Attribute) and isinstance(arg.value, ast.Name) and arg.value.id == "self" and func.cls is not None:
+            # self.x = SomeVisitor(...) anywhere in the class
+            for m in func.cls.methods.values():
+                for n in walk_local(m.node):
+                    if isinstance(n, ast.Assign) and isinstance(n.value, ast.Call) and any(dotted(t) == "self." + arg.attr for t in n.targets):
+                        d = dotted(n.value.func)
+                        r = prog.resolve_dotted(m.module, d) if d else None
+                        if isinstance(r, Class):
+                            return r
+        return None
+
+    def callees_ctx(self, func, ctx):
+        """-> list of (callee, ctx') ; ctx = visitor class on whose behalf the code runs (or None)"""
+        key = (func, ctx)
+        if key in self._callees:
+            return self._callees[key]
+        calls = [n for n in walk_local(func.node) if isinstance(n, ast.Call)]
+        out = self._callees_for_calls(calls, func, ctx)
+        self._callees[key] = out
+        return out
+
+    def entry_ctx(self, call, func, ctx=None):
+        """(callee, ctx) pairs for one call site"""
+        return self._callees_for_calls([call], func, ctx)
+
+    def _callees_for_calls(self, calls, func, ctx):
+        prog = self.prog
+        out = []
+        seen = set()
+
+        def add(g, c):
+            if (g, c) not in seen:
+                seen.add((g, c))
+                out.append((g, c))
+        for n in calls:
+            f = n.func
+            if isinstance(f, ast.Attribute) and f.attr == "accept" and len(n.args) == 1:
+                vc = self._visitor_arg_class(n.args[0], func, ctx)
+                for g in prog.funcs_named("accept"):
+                    if g.cls is not None:
+                        add(g, vc)
+                continue
+            if func.name == "accept" and isinstance(f, ast.Attribute) and f.attr.startswith("visit_") and len(func.params) > 1 \
+                    and isinstance(f.value, ast.Name) and f.value.id == func.params[1]:
+                if ctx is not None:
+                    tg = []
+                    for c in prog.subclasses(ctx):
+                        g = prog.lookup(c, f.attr)
+                        if g is not None and g not in tg:
+                            tg.append(g)
+                            add(g, c if c is not ctx and ctx in prog.mro(c) else ctx)
+                    continue
+                for g in prog.funcs_named(f.attr):
+                    if g.cls is not None:
+                        add(g, None)
+                continue
+            # self-calls under a visitor context dispatch on the context class
+            if isinstance(f, ast.Attribute) and isinstance(f.value, ast.Name) and f.value.id == "self" and ctx is not None \
+                    and func.cls is not None and func.cls in prog.mro(ctx) and f.attr not in GENERIC:
+                tg = []
+                for c in prog.subclasses(ctx):
+                    g = prog.lookup(c, f.attr)
+                    if g is not None and g not in tg:
+                        tg.append(g)
+                        add(g, ctx)
+                if tg:
+                    continue
+            if isinstance(f, ast.Attribute) and isinstance(f.value, ast.Call) and isinstance(f.value.func, ast.Name) \
+                    and f.value.func.id == "super" and ctx is not None and func.cls is not None and func.cls in prog.mro(ctx):
+                g = prog.lookup(func.cls, f.attr, after=func.cls)
+                if g is not None:
+                    add(g, ctx)
+                continue
+            for g in self.resolve(n, func):
+                c2 = None
+                if g.cls is not None and self._is_visitor(g.cls) and isinstance(f, ast.Attribute):
+                    # calling into a visitor object: it becomes the context
+                    vc = self._visitor_arg_class(f.value, func, ctx) if not (isinstance(f.value, ast.Name) and f.value.id == "self") else None
+                    c2 = vc if vc is not None and g.cls in prog.mro(vc) else g.cls
+                    if isinstance(f.value, ast.Name) and f.value.id == "self":
+                        c2 = ctx if (ctx is not None and g.cls in prog.mro(ctx)) else func.cls
+                add(g, c2)
+        return out
+
+    def reach_ctx(self, entries):
+        """entries: iterable of Func or (Func, ctx).  Returns set of Func reached."""
+        seen = set()
+        todo = [(e, None) if isinstance(e, Func) else e for e in entries]
+        while todo:
+            k = todo.pop()
+            if k in seen:
+                continue
+            seen.add(k)
+            todo.extend(self.callees_ctx(*k))
+        return {f for f, _ in seen}
 
     def reachable(self, entries, stop=None):
         seen = set()
@@ -159,10 +282,11 @@ def callgraph(prog):
 
 
 def solve_path(prog):
-    """functions reachable from Randomizer.do_randomize (the code a randomize call executes)"""
+    """functions reachable from Randomizer.do_randomize (the code a randomize call executes),
+    with visitor-context-sensitive dispatch"""
     cg = callgraph(prog)
     key = ("solve", prog.digest)
     if key not in _CG:
         entry = prog.method("Randomizer", "do_randomize")
-        _CG[key] = cg.reachable([entry])
+        _CG[key] = cg.reach_ctx([entry])
     return _CG[key]
